@@ -3,8 +3,9 @@
 package main
 
 import (
-	"os"
 	"fmt"
+	"os"
+	"os/exec"
 	"strings"
 	"time"
 
@@ -192,8 +193,64 @@ func capacityScenario(w, q int) *vm.Scenario {
 	return sc
 }
 
+// racePass runs the listener free on the uninstrumented real TarsServer under the Go race detector
+// (checks/c19race: the first requests after each of 12 server starts arrive on 4 connections at once) and
+// reports data races with an access in gpool or in the handlers' pool path, and any attempt in which more
+// handlers ran at once than MaxInvoke allows.  The scheduler runs cannot see these: they have scheduling
+// points only at synchronisation operations.
+func racePass(run *common.Run) {
+	args := []string{"test", "-race", "-count=1", "-vet=off"}
+	if ov := os.Getenv("VERIF_EXTRA_OVERLAY"); ov != "" {
+		args = append(args, "-overlay", ov) // seeded mutants without touching /repo
+	}
+	cmd := exec.Command("go", append(args, "./checks/c19race")...)
+	cmd.Dir = common.Root()
+	out, err := cmd.CombinedOutput()
+	text := string(out)
+	if err != nil && !strings.Contains(text, "DATA RACE") && !strings.Contains(text, "--- FAIL") {
+		run.InfraError("race pass could not run: %v\n%s", err, text)
+		return
+	}
+	reports, inPath := 0, 0
+	seen := map[string]bool{}
+	for _, blk := range strings.Split(text, "WARNING: DATA RACE")[1:] {
+		reports++
+		lines := strings.Split(blk, "\n")
+		for i, ln := range lines {
+			if !(strings.Contains(ln, " by goroutine ") || strings.Contains(ln, " by main goroutine")) || i+1 >= len(lines) {
+				continue
+			}
+			a := strings.TrimSpace(lines[i+1]) // the racing access itself
+			hit := strings.Contains(a, "TarsGo/tars/util/gpool.")
+			for _, fn := range []string{"(*tcpHandler).handleConn()", "(*tcpHandler).Listen()", "(*udpHandler).Listen()", "(*udpHandler).Handle()"} {
+				hit = hit || strings.HasSuffix(a, "transport."+fn)
+			}
+			if !hit {
+				continue
+			}
+			inPath++
+			sig := "data-race-in-listener-pool-path:" + a[strings.LastIndex(a, "/")+1:]
+			if !seen[sig] {
+				seen[sig] = true
+				if len(blk) > 3000 {
+					blk = blk[:3000]
+				}
+				run.Violation(sig, "the race detector reports concurrent unsynchronised accesses where the listener sets up or feeds its worker pool (free-running pass, first requests on 4 connections at once):"+blk, map[string]any{"cmd": "go test -race ./checks/c19race"})
+			}
+			break
+		}
+	}
+	if i := strings.Index(text, "overrun:"); i >= 0 {
+		run.Violation("race-pass:listener-ran-more-handlers-than-MaxInvoke", strings.SplitN(text[i:], "\n", 2)[0], map[string]any{"cmd": "go test -race ./checks/c19race"})
+	}
+	run.Note("free-running -race pass of the listener (12 server starts, first requests on 4 connections at once, real sockets): %d race reports in all, %d with an access in gpool or the handlers' pool path (the transport's known unsynchronised flags are not judged here)", reports, inPath)
+}
+
 func main() {
 	run := common.Start("C19", "model_checking")
+	if run.Replay == "" && os.Getenv("E1_WORKER") == "" {
+		racePass(run)
+	}
 	var cases []e1.Case
 	add := func(c cfg, bound int, budget time.Duration) {
 		cases = append(cases, e1.Case{Sc: scenario(c), Opt: vm.Options{Bound: bound, Prune: true}, Budget: budget, MinOutcomes: 1})
